@@ -14,7 +14,11 @@ CFG = {'lean_modules': ['ObiVerif.Props.C02'],
          'subnormal, max), bools, map[string]int, map[string]string, []int, nested []interface{} / map[string]interface{} / nil of depth <=3 (quick) / <=5 '
          '(thorough); definition absent / empty / untrimmed / starting with { / looking like a JSON object / the only annotation; json / guessed header '
          'parser; shifts 33/64 in and out) through the real FormatFastaBatch/FormatFastqBatch -> FastaChunkParser/FastqChunkParser -> '
-         'ParseFastSeqJsonHeader/ParseGuessedFastSeqHeader; non-trivial = distinct well-formed case',
+         'ParseFastSeqJsonHeader/ParseGuessedFastSeqHeader; '
+         'second round: op obik = the real __match__key__ / ParseFastSeqOBIHeader on every string of length <=3 (quick) / <=4 (thorough) over a Z blank tab = _ 1 ; { . plus a '
+         'corpus and 200 random texts; op cli = files of 1..6 generated records written by the real Format*Batch, piped through the real obiconvert as a '
+         'subprocess (built from the tree under check) and through it again, x {file argument, stdin} x {-Z (gunzipped by the harness), plain} x {--solexa on a '
+         'file written with offset 64 (file argument only)}, compared byte for byte (29 files quick, 165 per seed thorough); non-trivial = distinct well-formed case',
  'technique': 'Lean 4 theorems on a transcription of the scanner, the writers, the two parser state machines and a model of the JSON encoder / decoder '
               '(all strings, nestings, lengths, quality bytes, shifts) + differential correspondence with the real code: the model prints the JSON header '
               'itself and decodes it itself (same written bytes, same decoded value by digest) + record-equality, write-read-write and '
@@ -35,37 +39,64 @@ CFG = {'lean_modules': ['ObiVerif.Props.C02'],
                'write_read_fasta / _fastq / _fasta_many / _fastq_many, write_read_write_fixed_*. '
                'Tie: the compiled model computes the header bytes from the annotation spec (compared byte for byte with the real writers\' text) and decodes '
                'the span the scanner finds with its own decoder (compared by value digest with what the real header parser stored); AnnOK (hypothesis of the '
-               'unconditional theorems) is checked on every case.',
- 'level_note': 'Trusted: Lean kernel; the transcriptions Model/Header.lean (scanner, strings.TrimSpace, FormatFasta folding, _formatFastq, QualitiesString, '
+               'unconditional theorems) is checked on every case. '
+               'SECOND ROUND. (1) fasta_machine_refines_structural / fastq_machine_refines_structural: for EVERY text, whenever the 7-state / 12-state machine '
+               'returns exactly one record (FASTA: no > after the title line; FASTQ: the record carries qualities — both hypotheses shown necessary by decide '
+               'counterexamples), the structural reading readFastaS / readFastqS (splitTitle, unfold) is that record; fasta_machine_exact gives the exact answer of '
+               'the FASTA machine in structural terms (both directions): the structural layer is no longer part of the trusted reading. '
+               '(2) Model/JsonNum.lean adds Go\'s int / float64 to the values (GVal; a float64 = sign, shortest digits, point position), the writer '
+               '(intLit, fmtFloat = AppendFloat64 with its f/e choice, eFmt = strconv %e), the reader (float64 for every number) and the narrowing loop of '
+               '_parse_json_header_ as it is written (the float64 is assigned back after the int: identity — narrowing_asis_identity). Proved for all values: '
+               'intLit_grammatical (numLitOK (intLit i) for every i), floatLit_grammatical, float_value_roundtrip (Dec.ofLit (fmtFloat d) = d through the layouts '
+               '0.000ddd, dd.ddd, ddd000, d.ddde+-XX, sign of zero included), int_value_roundtrip (the decimal value of AppendInt\'s text is integral and equals i, '
+               'every i), reread_numbers (annotations -> object -> annotations = the same map with every int replaced by the float64 of the same value: VALUE and '
+               'KIND), reread_identical_iff (read back identical, kinds included, iff the map holds no int: every float64, integral ones like 3.0 too, keeps its kind; '
+               'exactly the ints change kind, int -> float64 — allowed by the property text, which compares numbers by value), narrowing_intended_changes_float / '
+               '_loses_big_float (what the evidently missing else would change). '
+               '(3) Model/ObiHeader.lean transcribes __match__key__ and the entry of ParseOBIFeatures; obi_on_empty, obi_no_key, guessed_is_json_obi, '
+               'write_read_fasta_guessed_obi_json / _fastq_: on everything the JSON writer prints the guessed parser is the JSON parser, with NO hypothesis on the '
+               'OBI-format parser left. (4) shift_range_ok / shift_outside_range_bad: the FASTQ round trips hold for every quality offset 14..172 and for no other '
+               '(write_read_fastq_many_anyshift_json); solexa_then_fixed (read 64, write 33, then a fixed point).',
+ 'level_note': 'Trusted: Lean kernel; the transcriptions Model/Header.lean, Model/JsonNum.lean, Model/ObiHeader.lean (scanner, strings.TrimSpace, FormatFasta folding, _formatFastq, QualitiesString, '
                'both chunk-parser state machines, ParseFastSeqJsonHeader, ParseGuessedFastSeqHeader dispatch) and Model/Json.lean. '
                'Numbers: a number is its decimal literal (value = the rational it denotes; canonical positional string for comparison). The choice f/e of '
                'go-json AppendFloat64 and the positional layout are modelled; the shortest digits of a float64 (strconv.FormatFloat) are DATA for the model and '
                'strconv.ParseFloat(shortest digits) = the same float64 is tied by the correspondence only (digest of the re-read value) — not proved. '
-               'The Go dynamic type int vs float64 is not part of a model value (the reader gives float64 to every number; the narrowing loop of '
-               '_parse_json_header_ is overwritten by its own second assignment and changes nothing — a float64 >= 2^63 narrowed to int would change value: '
-               'covered by generated floats 2^63, 1e21, 1e300 through the record-equality oracle). '
+               'In Model/Json.lean the Go dynamic type is not part of a value; Model/JsonNum.lean (round 2) adds it on top (see level_text). A float64 >= 2^63 narrowed to int '
+               'would change value: covered by generated floats 2^63, 1e21, 1e300 through the record-equality oracle. '
                'Strings: the encoder model is go-json\'s on valid UTF-8; for an invalid byte go-json prints U+FFFD (so a title line holding invalid UTF-8 '
                'inside a JSON string is accepted, and re-formatting changes that byte: outside the stated universe "arbitrary Unicode", reparse oracle skipped, '
                'corpus case kept for the correspondence). '
                'The decoder model is a strict RFC 8259 parser of compact texts; texts it rejects (white space between tokens, surrogate \\u escapes, raw control '
                'characters, and — by a driver guard — duplicate keys, non-string definition) fall back to go-json\'s answer passed as a table (about 6% of the '
                'hdr cases, none of the writer-produced headers); go-json accepting exactly RFC 8259 is not claimed. '
-               'The structural layer (splitTitle/unfold/readFastaS/readFastqS, cross-checked against the machines on every one-record case) is still tied by the '
-               'correspondence only (no refinement theorem); OBI-format headers (the other branch of the guessed parser: parameter `obi`, only its behaviour on an '
-               'empty definition is assumed and exercised) and the chunk splitting of multi-record files (C01) are outside this property. intLit (Nat.repr) '
-               'producing a grammatical literal is checked at run time (AnnOK on every case), not proved. Values outside the stated universe (ints beyond 2^53, '
+               'Refinement (round 2) is for texts on which the machine returns ONE record; a refinement for several records per text (split at EOL > / @) is not stated — '
+               'the many-record theorems are on the machines directly. Numbers (round 2): a float64 is its shortest decimal digits (strconv\'s, data: the driver reads them '
+               'from FormatFloat(x, e) and refuses the case unless they are in normal form and fmtFloat reprints go-json\'s bytes); the rounding decimal -> float64 is '
+               'not modelled, so "an int is read back as the float64 of the same value" is exact on the decimal and needs |i| <= 2^53 for the float64 (IEEE-754, '
+               'trusted; generated ints stop at +-2^53). Kinds are tied by a second, kind-aware digest of what the real reader stored (every number float64). '
+               'OBI-format headers: only __match__key__ and the no-key path are modelled (what follows a key — regular expressions, go-json on dict values — is the '
+               'parameter `rest`); the OBI writer/reader round trip (obiconvert -O) is NOT covered: the property text is about the default JSON title lines. '
+               'Command line (op cli): the model predicts the bytes obiconvert prints (chunk parser + guessed parser + writer) and that a second pass is the identity; '
+               'stdin is read by the C reader kseq (property C17), not by the Go chunk parsers — agreement is observed, not modelled; --solexa is exercised with a '
+               'file argument only: through stdin kseq drops quality bytes above 127 (offset 64 with quality >= 64), see notes/patches/C02-kseq-highbyte.note. '
+               'The chunk splitting of multi-record files (C01) is outside this property. Values outside the stated universe (ints beyond 2^53, '
                'NaN/Inf, invalid UTF-8 in annotation values) are not generated; an empty sequence makes both writers Fatalf (modelled, outside the property).',
  'trusted_base': LEAN_TB + ['Go strconv shortest float formatting / ParseFloat (data for the model; round trip tied differentially)',
                             'goccy/go-json Marshal/Unmarshal: modelled (Model/Json.lean), tie = byte-for-byte header + by-value digest on every generated map; '
                             'its answers are data only for texts outside the decoder model',
                             'Go strings.TrimSpace / unicode.IsSpace (transcribed from the documentation, exercised by the correspondence)',
-                            'harness canonical by-value dump of annotation maps (FNV-1a digest), recomputed independently by the model driver'],
+                            'harness canonical by-value dump of annotation maps (FNV-1a digest) and its kind-aware variant, recomputed independently by the model driver',
+                            'IEEE-754: every integer |i| <= 2^53 is a float64 (the model compares decimal values)',
+                            'op cli: os/exec, compress/gzip of the Go standard library; the C reader kseq on stdin (property C17)'],
  'modelled': 'pkg/obiformats fastseq_json_header.go (_parse_json_header_ scanner + ParseFastSeqJsonHeader, FormatFastSeqJsonHeader), fastseq_header.go '
              '(ParseGuessedFastSeqHeader dispatch), fastseq_write_fasta.go (FormatFasta/FormatFastaBatch incl. empty-sequence Fatalf), fastseq_write_fastq.go '
              '(_formatFastq/FormatFastqBatch), fastaseq_read.go (FastaChunkParser), fastqseq_read.go (FastqChunkParser, _storeSequenceQuality); pkg/obiseq '
              'biosequence.go (QualitiesString, Qualities); pkg/obiutils goutils.go JsonMarshalByteBuffer = goccy/go-json encoder (appendNormalizedString, '
-             'AppendInt, AppendFloat64 format choice, Mapslice key order) and json.Unmarshal into map[string]interface{} on compact RFC 8259 texts',
+             'AppendInt, AppendFloat64 format choice and %e layout, Mapslice key order) and json.Unmarshal into map[string]interface{} on compact RFC 8259 texts (float64 for every number) + the narrowing loop; '
+             'fastseq_obi_header.go (__match__key__, entry of ParseOBIFeatures / ParseFastSeqOBIHeader); cmd/obitools/obiconvert as a subprocess (observed)',
  'assumptions': ['strconv: ParseFloat(FormatFloat(x, shortest)) = x and the shortest digits themselves (data; checked on every generated float through the digest)',
                  'the model of go-json agrees with go-json (checked on every generated map: header bytes and decoded value)',
                  'identifiers contain no blank; sequences are non-empty and over the parser alphabet; input and output quality shifts agree for quality round trips',
-                 'annotation maps: number literals grammatical, key `definition` holds the definition string (AnnOK, checked on every case)']}
+                 'annotation maps: number literals grammatical (now a theorem for ints and floats), key `definition` holds the definition string (AnnOK, checked on every case)',
+                 'float digits given as data are in normal form and reprinted identically by the typed model (checked on every generated float)']}
